@@ -22,11 +22,34 @@ def recalc_once(current, trt, times):
     return asyncio.run(main())
 
 
+def lowered_violation(hist):
+    """a lowered limit takes effect as outstanding requests complete: after the limit went down while M
+    permits existed (earlier reductions may not have taken effect yet), with k holders finished since and L
+    the largest limit in force since, at most max(M - k, L) are in flight"""
+    for i in range(1, len(hist)):
+        if hist[i][3] < hist[i - 1][3]:
+            M, c0, L = max(hist[i - 1][5], hist[i - 1][3]), hist[i][4], hist[i][3]
+            for j in range(i, len(hist)):
+                L = max(L, hist[j][3])
+                k = hist[j][4] - c0
+                if hist[j][1] > max(M - k, L):
+                    return {'lowered_at': hist[i][0], 'from': M, 'at': hist[j][0], 'in_flight': hist[j][1],
+                            'completed_since': k, 'largest_limit_since': L}
+    return None
+
+
 def workload(case):
     """callers against a scripted peer on a virtual-time loop; returns per-call outcomes and the
     in-flight / limit history"""
     from aiorpcx import session, jsonrpc, curio
     loop = sessions.new_loop()
+
+    class Clock:                 # response times are measured with time.time(): give the session the virtual clock
+        @staticmethod
+        def time():
+            return loop.time() + 1700000000.0      # wall clock and loop clock differ, as they do in reality
+    saved_time = session.time
+    session.time = Clock
     try:
         cfg = case['cfg']
 
@@ -95,6 +118,7 @@ def workload(case):
                 loop.call_later(beh[1], deliver)
 
         written = {}
+        backlog = [0]
 
         async def caller(i, spec):
             await asyncio.sleep(spec['start'])
@@ -124,7 +148,9 @@ def workload(case):
                 maxlimit[0] = max(maxlimit[0], s._outgoing_concurrency.max_concurrent)
                 woken = sum(1 for f in (conc._semaphore._waiters or ()) if f.done() and not f.cancelled())
                 inside = conc._sem_value - conc._semaphore._value - woken      # callers between write and outcome
-                hist.append((loop.time(), inside, maxlimit[0], conc.max_concurrent))
+                done_written = sum(1 for k in calls if k in wtimes)      # finished callers that had entered for sure
+                hist.append((loop.time(), inside, maxlimit[0], conc.max_concurrent, done_written, conc._sem_value))
+                backlog[0] = max(backlog[0], len(s._req_times))
                 await asyncio.sleep(0.01)
 
         async def main():
@@ -142,9 +168,11 @@ def workload(case):
         return {'calls': {str(k): v for k, v in calls.items()}, 'pending': npending,
                 'max_outstanding': max((h[1] for h in hist), default=0),
                 'violations': [h for h in hist if h[1] > h[2]][:3],
+                'lowered': lowered_violation(hist), 'backlog': backlog[0], 'recal': cfg['recal'],
                 'limits': sorted(limits_seen), 'wtimes': {str(k): v for k, v in wtimes.items()},
                 'timeout': cfg['timeout']}
     finally:
+        session.time = saved_time
         sessions.close_loop(loop)
 
 
@@ -224,7 +252,15 @@ class C20(Prop):
         out = []
         nw = 12 if ctx['tier'] == 'quick' else 150
         ctx['exhaustive'].append(f'{getattr(self, "_n", 0)} recalibrations: every current limit 1..250')
-        for w in range(nw):
+        directed = [
+            # a peer that never answers: every wave of callers times out, the limit is lowered again and again
+            {'kind': 'workload', 'cfg': {'timeout': 1.0, 'trt': 0.5, 'recal': 5}, 'peer': [['never']],
+             'callers': [{'start': 0, 'batch': 0}] * 160, 'lose_at': None, 'horizon': 400},
+            # errors instead of results while the limit goes down
+            {'kind': 'workload', 'cfg': {'timeout': 5.0, 'trt': 0.5, 'recal': 5}, 'peer': [['garbage', 2.0], ['answer', 3.0], ['never']],
+             'callers': [{'start': 0, 'batch': 0}] * 150 + [{'start': 1.0, 'batch': 2}] * 10, 'lose_at': None, 'horizon': 600},
+        ]
+        for w in range(nw + len(directed)):
             ncall = rng.choice([1, 3, 10, 40, 120])
             timeout = rng.choice([30.0, 5.0, 1.0])
             cfg = {'timeout': timeout, 'trt': rng.choice([3.0, 0.5]), 'recal': rng.choice([30, 5, 1])}
@@ -235,6 +271,9 @@ class C20(Prop):
             case = {'kind': 'workload', 'cfg': cfg, 'peer': peer, 'callers': callers,
                     'lose_at': rng.choice([None, None, None, 0.3, timeout / 2]),
                     'horizon': (timeout + 21.0) * (2 + ncall // 10) + 60}
+            if w >= nw:
+                case = directed[w - nw]
+                ncall = len(case['callers'])
             o = workload(case)
             ctx['extra_evals'] += 1
             if ncall >= 10:
@@ -247,6 +286,13 @@ class C20(Prop):
                 clause = 'requests awaiting responses outnumber the largest limit in force'
             elif any(not 1 <= l <= 250 for l in o['limits']):
                 clause = 'outgoing limit left the range 1..250'
+            elif o['lowered']:
+                clause = ('a lowered limit did not take effect as outstanding requests completed: '
+                          f"{o['lowered']['in_flight']} in flight, limit lowered from {o['lowered']['from']}, "
+                          f"{o['lowered']['completed_since']} completed since, largest limit since {o['lowered']['largest_limit_since']}")
+            elif o['backlog'] >= o['recal'] + 5:
+                clause = (f"{o['backlog']} response times were waiting although the limit is re-estimated after every "
+                          f"{o['recal']} of them")
             else:
                 for k, c in o['calls'].items():
                     ctx['hist']['call_' + c['out']] = ctx['hist'].get('call_' + c['out'], 0) + 1
